@@ -3,8 +3,8 @@ CONSTANTS
   Last = 5
   MaxK = 2
   MaxD = 2
-  MaxSteps = 2
-  Mode = "structural"
+  MaxSteps = 1
+  Mode = "clipboard"
 INVARIANTS InsertDeleteIdentity ClearUndoIdentity Emit
 PROPERTIES MovePermutes InsertLosesNothing
 CHECK_DEADLOCK FALSE
